@@ -32,12 +32,12 @@ def compare_sum(total, parts, tol=1e-11):
     return worst
 
 
-def gen_case(rng, quick):
+def gen_case(rng, quick, wide=False):
     th, ob = wlayer.rand_ew(rng)
     kindsNC = ["F2", "FL", "F3", "g1", "g4", "gL"]
     rel = rng.choice(["fonll", "zm", "ffns", "pos"])
     proc = ob["prDIS"]
-    pto = rng.choice([0, 1, 1] if quick else [0, 1, 1, 2])
+    pto = rng.choice([0, 1, 2, 3, 3] if wide else ([0, 1, 1] if quick else [0, 1, 1, 2, 3]))
     Q2 = rng.choice([common.dyadic(rng, 4.0, 64.0, 6), common.dyadic(rng, 30.0, 2000.0, 8)])
     x = rng.choice([0.125, 0.25, 0.5, common.dyadic(rng, 0.02, 0.8, 10)])
     th.update(PTO=pto, PTODIS=pto, RenScaleVar=rng.random() < 0.5, FactScaleVar=rng.random() < 0.5,
@@ -91,11 +91,13 @@ def run_case(c):
     raise ValueError(rel)
 
 
-def patrol(chk, n):
+def patrol(chk, n, wide=False):
     dist, bad, crashed = {}, [], {}
     quick = chk.tier == "quick"
     for _ in range(n):
-        c = gen_case(chk.rng, quick)
+        c = gen_case(chk.rng, quick, wide)
+        if c['theory']['PTO'] == 3:
+            c['rel'] = chk.rng.choice(['pos', 'zm']); c['kind'] = chk.rng.choice(['F2', 'FL', 'F3'])
         c["nfff"] = chk.rng.choice([3, 3, 4, 5])
         c["heavyness"] = chk.rng.choice(["total", "total", "light", "charm", "bottom"])
         c["fns"] = chk.rng.choice(["ZM-VFNS", "FFNS"])
@@ -108,7 +110,7 @@ def patrol(chk, n):
             continue
         if r is not None:
             bad.append((c, r))
-    chk.patrol["sum_rules"] = dict(cases=n, failures=len(bad), distribution=dist, crashed_not_counted=crashed,
+    chk.patrol["sum_rules_wide" if wide else "sum_rules"] = dict(cases=n, failures=len(bad), distribution=dist, crashed_not_counted=crashed,
                                    rule="real runs: ZM total vs light; FFNS total vs light + massive heavy quarks; FONLL-FFNS full vs massless + "
                                         "massive; sum over the six NCPositivityCharge runs vs unrestricted; every order key, entry-wise, tol 1e-11")
     for c, r in bad[:3]:
@@ -127,7 +129,7 @@ def run(chk):
     chk.oblige("correspondence combiner, all schemes/families/FONLL parts (model = Combiner.collect_elems)", not bad2, str(bad2[:1]))
     patrol(chk, 24 if quick else 300)
     if chk.red() and not chk.violations:
-        patrol(chk, 150)
+        patrol(chk, 150, wide=True)
     if chk.red() and not chk.violations:
         chk.violation("unproved", "a theorem or correspondence of C07 no longer checks: %s" % [o[0] for o in chk.red()],
                       dict(red=[(o[0], o[2]) for o in chk.red()], disagreements=(bad + bad2)[:3]), found_input=False)
